@@ -1334,8 +1334,8 @@ func vC05RunScenario(t vC05Toggles, hostsPath string, steps []vC05Step) []vC05St
 	return out
 }
 
-// vC05HopRefreshOnly CLASSIFIES a hand-off difference as the known finding chase-hop-prefetch
-// (never accepts one): the byte path composed an alias chain from cached hops (outcome counter
+// vC05HopRefreshOnly NAMES a hand-off difference as the class of the fixed finding chase-hop-prefetch
+// (/repo cad4531; it never accepts one - the case stays a plain failure): the byte path composed an alias chain from cached hops (outcome counter
 // chase_served), the refresh queue is configured, the two client-visible replies are equal, and the
 // only thing the decoded-path server's resolver saw beyond the wire-path server's is background
 // (non-client) traffic for the client's qtype/qclass at a name other than the one asked - the refresh
@@ -1557,9 +1557,6 @@ func TestVerifC05Differential(t *testing.T) {
 	// ------------------------------------------------ phase 2: two-server differential
 	budget := n - nIngress
 	scen := 0
-	// VERIF_C05_STRICT=1: the classes of the known findings that have a fix candidate are reported as
-	// plain failures (used to verify the candidate in a scratch worktree)
-	strict := os.Getenv("VERIF_C05_STRICT") != ""
 	// scripted histories first: the ladder orders and hand-overs the random histories reach rarely
 	type sq struct {
 		name  string
@@ -1662,8 +1659,8 @@ func TestVerifC05Differential(t *testing.T) {
 	add2(vC05Toggles{}, pk("nx1", 1, 0x0100, true, true, 1232), pk("a.nx1", 1, 0x0100, true, true, 1232), sh(30), pk("a.nx1", 1, 0x0100, false, true, 1232), sh(40), pk("a.nx1", 1, 0x0100, false, true, 1232), pk("nxf0", 1, 0x0100, false, true, 1232),
 		pk("sf0", 1, 0x0100, false, true, 1232), pk("sf0", 1, 0x0100, false, true, 1232), sh(4), pk("sf0", 1, 0x0100, false, true, 1232), sh(10), pk("sf0", 1, 0x0100, false, true, 1232), pk("sf0", 1, 0x0100, false, true, 1232))
 	// refresh queue on.  (i) an alias chain whose hop enters its refresh window while the alias itself is
-	// far from it: ca1 (ttl 3600) -> pos2 (ttl 5, window = its last second) - finding chase-hop-prefetch,
-	// the byte-path composer does not tick the hop's refresh.  (ii) a three-hop chain admitted 100 s
+	// far from it: ca1 (ttl 3600) -> pos2 (ttl 5, window = its last second) - regression histories of the fixed
+	// finding chase-hop-prefetch (cad4531: the byte-path composer did not tick the hop's refresh).  (ii) a three-hop chain admitted 100 s
 	// before its alias: the alias inherits the hops' lifetime, so all four entries enter their windows
 	// together, the alias declines on both paths and four refreshes run concurrently on the queue's
 	// workers (their order at the resolver is not an observable; see vC05Stub).  Single pass and
@@ -1864,7 +1861,7 @@ func TestVerifC05Differential(t *testing.T) {
 			st := steps[i]
 			goFail := ""
 			fkey := ""
-			hopKnown := false
+			hopRegress := false
 			for k := range ob.w {
 				if ob.w[k] != ob.m[k] {
 					goFail = fmt.Sprintf("replies differ in %s: wire{%s} msg{%s}", vC05Comp[k], ob.w[k], ob.m[k])
@@ -1879,10 +1876,11 @@ func TestVerifC05Differential(t *testing.T) {
 			}
 			if goFail == "" && ob.wLog != ob.mLog {
 				goFail = fmt.Sprintf("resolution hand-off differs: wire saw {%s} msg saw {%s}", ob.wLog, ob.mLog)
-				if firstBad < 0 && !strict && vC05HopRefreshOnly(tg, st, ob) {
-					// known finding: a hop of a byte-composed alias chain is never refreshed
-					hopKnown = true
-					goFail = "a cached hop of an alias chain composed on the byte path does not tick its refresh: " + goFail
+				if firstBad < 0 && vC05HopRefreshOnly(tg, st, ob) {
+					// the class of the FIXED finding chase-hop-prefetch (/repo cad4531): a plain failure,
+					// only named so that a regression is recognised at once
+					hopRegress = true
+					goFail = "regression of chase-hop-prefetch (fixed in cad4531): a cached hop of an alias chain composed on the byte path does not tick its refresh: " + goFail
 				}
 			}
 			if goFail != "" && firstBad >= 0 {
@@ -1898,8 +1896,8 @@ func TestVerifC05Differential(t *testing.T) {
 			if st.probe {
 				kind = "probe/" + ob.w[0]
 			}
-			if hopKnown {
-				kind = "diff/chase-hop-prefetch"
+			if hopRegress {
+				kind = "diff/chase-hop-prefetch-regression"
 			}
 			var hist []string
 			if goFail != "" {
@@ -1935,9 +1933,6 @@ func TestVerifC05Differential(t *testing.T) {
 			if fkey != "" {
 				// reported once through emitKnown; keep this step out of the plain comparison
 				rec["inconclusive"] = true
-			}
-			if hopKnown && !unsettled {
-				rec["fkey"] = "chase-hop-prefetch"
 			}
 			emit(rec)
 		}
